@@ -18,7 +18,7 @@ package store
 // returned to the caller.
 //@ func (*Store) Close
 //@   requires [built] s != nil && s.snapshotCAS != nil
-//@   assigns *, chanClosed
+//@   assigns **
 //@   ghost var gate bool = false
 //@   ghost var gateErr error = nil
 //@   ghost var released bool = false
